@@ -107,30 +107,15 @@ class Position(NamedTuple):
         Returns:
             A tuple (line_number, column_number), both 1-based.
         """
-        lines = self.text.splitlines(keepends=True)
-        cumulative_length = 0
-        target_line_index = -1
-
-        for i, line in enumerate(lines):
-            cumulative_length += len(line)
-            if self.pos < cumulative_length:
-                target_line_index = i
-                break
-
-        if target_line_index == -1:
-            return len(lines) + 1, 1
-
-        # 1-based
-        line_number = target_line_index + 1
-        column_number = (
-            self.pos - (cumulative_length - len(lines[target_line_index])) + 1
-        )
+        line_number = self.text.count("\n", 0, self.pos) + 1
+        column_number = self.pos - self.text.rfind("\n", 0, self.pos)
         return line_number, column_number
 
     def line_of(self) -> str:
         """Return the line of text that contains this position."""
-        line_number, _ = self.line_col()
-        return self.text[line_number - 1]
+        start = self.text.rfind("\n", 0, self.pos) + 1
+        end = self.text.find("\n", self.pos)
+        return self.text[start:] if end == -1 else self.text[start : end + 1]
 
 
 class Pair:
